@@ -526,3 +526,16 @@ M('r3-c13-twin-locals', 'C13', MIT, "    pairwise_xor = generate_pairwise_xor(le
 M('c17-ship-renumber-and-or', 'C17', ENCF, "    gate.AND: 1,\n    gate.OR: 2,", "    gate.OR: 1,\n    gate.AND: 2,", 'C17.SHIP')
 M('c17-ship-renumber-xor', 'C17', ENCF, "    gate.XOR: 5,\n    gate.NXOR: 6,", "    gate.NXOR: 5,\n    gate.XOR: 6,", 'C17.SHIP')
 M('c17-ship-key-width', 'C17', 'cirbo/circuits_db/binary_dict_io.py', "DICT_KEY_BYTE_SIZE = 2", "DICT_KEY_BYTE_SIZE = 4", 'C17.SHIP')
+
+# *.NUM: the generators as they stand (work lists, reduction loops, recursion)
+M('c08-num-wallace-leftover', 'C08', MULF, "        for row in range(len(c[0]) - len(c[0]) % 3, len(c[0])):\n            for col in range(n + m):\n                cn[col].append(c[col][row])", "        for row in range(len(c[0]) - len(c[0]) % 3, len(c[0]) - len(c[0]) % 3 + min(1, len(c[0]) % 3)):\n            for col in range(n + m):\n                cn[col].append(c[col][row])", 'C08.NUM')
+M('c08-num-dadda-step', 'C08', MULF, "            di = (2 * di + 2) // 3", "            di = (2 * di + 1) // 3", None)  # another valid reduction schedule: the product is still exact
+M('c08-num-karatsuba-high-shift', 'C08', MULF, "    final_res = add_sum_two_numbers_with_shift(circuit, 2 * mid, res, ac)\n\n    return reverse_if_big_endian(final_res[:out_size], big_endian)\n\n\ndef add_simple_karatsuba", "    final_res = add_sum_two_numbers_with_shift(circuit, 2 * mid + 1, res, ac)\n\n    return reverse_if_big_endian(final_res[:out_size], big_endian)\n\n\ndef add_simple_karatsuba", 'C08.NUM')
+M('c08-num-twin-wallace-range', 'C08', MULF, "        for row in range(0, len(c[0]) - len(c[0]) % 3, 3):", "        for row in range(0, 3 * (len(c[0]) // 3), 3):", None)
+M('c07-num-easy-pop', 'C07', SUMF, "            x, y = add_sum2(circuit, now[-1:-3:-1])\n            for _ in range(2):\n                now.pop()\n            now.append(x)\n            next.append(y)\n        res.append(now[0])", "            x, y = add_sum2(circuit, now[-1:-3:-1])\n            for _ in range(2):\n                now.pop()\n            now.append(y)\n            next.append(x)\n        res.append(now[0])", 'C07.NUM')
+M('c07-num-weighted-level', 'C07', SUMF, "        for label in next_solo:\n            single.add((now_level + 1, label))", "        for label in next_solo:\n            single.add((now_level + 2, label))", 'C07.NUM')
+M('c07-num-pow2-carry', 'C07', SUMF, "                input_labels = input_labels[i:]\n                input_labels.append(out[it][0])", "                input_labels = input_labels[i:]\n                input_labels.append(out[it][-1])", 'C07.NUM')
+# round-3 strengthenings
+M('c13-many-outputs-slice', 'C13', MIT, "        miter.emplace_gate(OR_NAME, gate.OR, xor_outputs)", "        miter.emplace_gate(OR_NAME, gate.OR, xor_outputs[:5] if len(xor_outputs) > 5 else xor_outputs)", 'C13.FOLD')
+M('c20-cycle-first-output-only', 'C20', VAL, "    more_itertools.consume(circuit.dfs(on_discover_hook=on_discover_hook))", "    more_itertools.consume(circuit.dfs(circuit.outputs[:1] or None, on_discover_hook=on_discover_hook))", 'C20.FOLD')
+M('c05-sat-answer-from-model', 'C05', 'cirbo/sat/sat.py', "        return PySatResult(_solver.solve(), _solver.get_model())", "        _solver.solve()\n        return PySatResult(bool(_solver.get_model()), _solver.get_model())", 'C05.SAT')
